@@ -31,6 +31,7 @@ MAP = [
     ("verify_input rejects a non-empty ScriptSig on native witness", "C06", "scriptSig [OP_1] spent any P2WPKH/P2WSH/P2TR output"),
     ("P2SH-wrapped witness programs must be the only ScriptSig element", "C06", "scriptSig [junk, redeemScript] spent P2SH-P2WPKH/P2SH-P2WSH outputs without a signature"),
     ("verify_input requires a push-only ScriptSig for p2sh inputs", "C06", "scriptSig <redeemScript> OP_NOP spent any P2SH output without signatures"),
+    ("Script.evaluate applies the witness program rules only when the program is the whole remaining script", "C06", "scriptSig [OP_0 <hash160(attacker key)> <redeemScript>] + witness [attacker sig, key] (or [OP_0 <sha256(OP_TRUE)> <redeemScript>] + witness [OP_TRUE]) spent any P2SH output: the witness-program rules fired on stack shape inside the scriptSig"),
     ("OP_PICK and OP_ROLL fail on a negative operand", "C07", "negative PICK/ROLL operand succeeded"),
     ("OP_CHECKSEQUENCEVERIFY is a NOP when the operand has the disable flag", "C07", "CSV operand with bit 31 set was rejected"),
     ("script evaluation ends with CastToBool", "C07", "final stack top 00 / 80 / 0000 counted as true"),
@@ -47,9 +48,11 @@ MAP = [
     ("PSBTOut.validate accepts the key derivation of a p2sh-p2wpkh output", "C10", "p2sh-p2wpkh output with derivation could not be validated / re-parsed"),
     ("PSBT.serialize embeds the unsigned transaction in non-witness format", "C10", "Tx(segwit=True) was embedded in witness format; re-parse failed"),
     ("PSBT validation verifies a partial signature for the hash type", "C10", "partial signature with altered hash-type byte loaded"),
+    ("PSBT.final_tx uses an empty ScriptSig for inputs finalised with a witness only", "C10", "PSBT.create(plain-signed p2wpkh tx) -> serialize -> parse -> final_tx raised AttributeError (script_sig None when only a final scriptwitness is present)"),
     ("PSBTOut.validate checks that an attached RedeemScript hashes", "C11", "foreign P2SH output with the wallet's change redeem script + derivations was labelled change"),
     ("a change output must carry exactly one key from each cosigner", "C11", "m-of-n script of one cosigner's keys was labelled change"),
     ("PSBTIn.validate ties a p2sh RedeemScript to a witness UTXO", "C11", "legacy P2SH input given as a bare witness UTXO: any stated amount / a foreign redeem script was summarised"),
+    ("WitnessScript.get_quorum requires as many pubkeys as the script", "C11", "p2wsh change output whose witness script is OP_m <cosigner keys> <surplus foreign key> OP_n CHECKMULTISIG (honest derivations kept) was labelled change: n was read from the opcode, the keys were not counted"),
 ]
 
 
